@@ -82,6 +82,11 @@ CHECKS = {
    "Completeness only (no minimality). Record sets and queries are sampled, biased to the boundaries the bin/tile arithmetic depends on.",
    "property-based testing (rapid): brute-force reference oracle over generated record sets and queries",
    "DESIGN.md 3/C04"),
+ "C15": ("exploration",
+   "Generated-input search: indexes built by Add from generated record sets (BAI, CSI v1/v2 with aux bytes, tabix with generated header fields) are written, parsed by an independent BAI/TBI/CSI structure parser (bins = specification reg2bin of the records, each record inside a chunk of its bin, linear index conservative for every overlapped tile, pseudo-bin layout and values, trailing unplaced count, header fields at their specified positions), read back, re-written (identical bytes), queried (identical answers) and their NumRefs/ReferenceStats/Unmapped compared with the generator's ground truth; a second sub-check feeds indexes encoded by the harness itself in shapes Add cannot make (no pseudo-bin, no trailer, reversed bins/chunks) and checks acceptance, completeness, stable re-serialisation and statistics validity flags.",
+   "Trusted: the harness' structure parser/encoder for the three formats and the generator's bookkeeping.",
+   "property-based testing (rapid): round trip + independent format parser/encoder + ground-truth oracle",
+   "DESIGN.md 3/C15"),
 }
 
 NOT_YET = {}
